@@ -126,6 +126,25 @@ Theorem C13_tie_cellLength : forall d pos typ meta,
 Proof. exact cellLength_equiv. Qed.
 Print Assumptions C13_tie_cellLength.
 
+
+(* ---------------------------------------------------------------------------------------------------------------
+   Tie by proof to the Go source.  gen/TransCellBytes.v is CellBytes of /repo/replication/binlog_event_rbr.go, translated
+   on every run by harness/cmd/gotrans (one definition per case of its switch and the dispatcher CellBytes_g); for the
+   type codes below the translated function returns, for EVERY row data, position, metadata and signedness, the value
+   text and consumed length that Model.Cell.cell_bytes returns - the model function the theorems above are about (same
+   outcome class on errors and panics).  Oracles shared by both sides: ffmt (strconv.AppendFloat 'f'), print_timestamp tz
+   (printTimestamp, pinned below / in C12), jsonp (printJSONData, C14).  flat forgets the difference between a nil and an
+   empty result slice (the model never answers NULL: that is decided by the NULL bitmap before CellBytes is called).
+   A change to one of these cases of CellBytes either keeps this provable or breaks the build before any test runs. *)
+From GB Require Import Base.GoSem Proofs.TransEquivCellBytesDefs Proofs.TransEquivCellBytesTies.
+From GBGen Require Import TransCellBytes.
+Theorem C13_tie_CellBytes : forall ffmt tz jsonp fuel d pos typ meta uns,
+  In typ [15; 253; 254; 245; 249; 250; 251; 252; 255] -> (1000 <= fuel)%nat -> wf_bytes d -> 0 <= meta < 65536 -> Z.of_nat pos < 2 ^ 62 -> (pos <= length d)%nat ->
+  res_sim (CellBytes_g ffmt (print_timestamp tz) jsonp fuel d (Z.of_nat pos) typ meta uns)
+          (flat (cell_bytes ffmt tz jsonp d pos typ meta uns)).
+Proof. exact CellBytes_tie_strings. Qed.
+Print Assumptions C13_tie_CellBytes.
+
 (* ---------------------------------------------------------------------------------------------------------------
    Source pins.  The model functions used above are a hand-written reading of these Go functions (they have closures,
    channels, interfaces or maps, which the translator gotrans does not accept).  gosync regenerates their normalised
